@@ -41,13 +41,13 @@ CHECKS = {
         note=TOK_NOTE),
     "C02": dict(
         text="As C01 with formula C02 (length bounds, remainder rule); the constructor accept/reject decision is compared with "
-             "TokCore!Accepted on the whole integer grid -1..5 (72 030 tuples). Thorough tier: both length bounds are proved for ALL parameter "
+             "TokCore!Accepted on the whole integer grid -1..5 (72 030 tuples). Both length bounds are proved for ALL parameter "
              "values and stream lengths by the inductive invariant of TokenizerInt (Apalache); TLC checks AbsInv on the concrete registers.",
         ref="DESIGN.md 5/C02", technique="TLA+ model checking (TLC) + behaviour replay + trace validation; constructor decision table",
         note=TOK_NOTE),
     "C03": dict(
         text="As C01 with formula C03 (no run of more than max_continuous_silence invalid frames inside a chain of contiguous "
-             "tokens, first/last frame validity). Thorough tier: the run bound is also proved for ALL parameter values and stream lengths "
+             "tokens, first/last frame validity). The run bound is also proved for ALL parameter values and stream lengths "
              "by an inductive invariant of the integer abstraction TokenizerInt (Apalache, 3 obligations); TLC checks the same invariant on "
              "the concrete registers (AbsInv). On observed runs the statement is also evaluated on the DELIVERED data (per-frame validity "
              "logged with every token), which does not presuppose that tokens are slices.",
